@@ -8,8 +8,9 @@ request:  sim <R|F> <de|ed> <nPre> <nPer> <nCols> ; <section> ; <section> ...
              O <row> <row> ...                        (rows to print)
   prefix expression tokens:  c <num/den> | v <row> <shift> | n e | + e e | - e e | * e e | / e e | f <k> e
   mode R = exact rationals, F = IEEE doubles (replies are the 64 bits of each double)
-reply:    ok <admissible flag per step, T/F> <branch per step: S simulate, W when_data fallback, X exogenized> <C|N: closed-form order condition holds> ; <row>: v ... ; ...
+reply:    ok <admissible flag per step, T/F> <branch per step: S simulate, W when_data fallback, X exogenized> <C|N: closed-form order condition holds> P<nPre>/<nPost> ; <row>: v ... ; ...
           (values for the base columns nPre .. nPre+nPer-1)   |  err:bad | err:unsupported | bad-op
+request:  merge <target keys> | <out keys>        reply:  key=t|o ... (the returned databox `target_db | out_db`, in order)
 -/
 import IrisVerif.Model.Sequential
 import IrisVerif.Driver.Util
@@ -156,7 +157,9 @@ def runCase {β : Type} [Carrier β] (cd : Codec β) (exact : Bool) (order : Str
     -- does the model text meet the hypotheses of the closed-form admissibility theorem for this order and span?
     let closed : Bool := decide (AllSelfOK c.eqs) && decide (DistinctWrites c.eqs) &&
       (if order = "de" then decide (DatesEquationsCond c.eqs base) else decide (EquationsDatesCond c.eqs base))
-    "ok " ++ flags ++ " " ++ tags ++ " " ++ (if closed then "C" else "N") ++ " ; " ++ " ; ".intercalate rows
+    -- the extent of the data array the model computes from the equations (Sequential.max_lag / max_lead)
+    let extent := "P" ++ toString (nPreOf c.eqs) ++ "/" ++ toString (nPostOf c.eqs)
+    "ok " ++ flags ++ " " ++ tags ++ " " ++ (if closed then "C" else "N") ++ " " ++ extent ++ " ; " ++ " ; ".intercalate rows
 
 def runWith {β : Type} [Carrier β] (cd : Codec β) (exact : Bool) (order : String) (nPre nPer nCols : Nat)
     (sections : List String) : String :=
@@ -169,7 +172,22 @@ def runWith {β : Type} [Carrier β] (cd : Codec β) (exact : Bool) (order : Str
   | none => "bad-op"
   | some c => runCase cd exact order nPre nPer nCols c
 
+/-- `merge <target keys ...> | <out keys ...>`: the returned databox `target_db | out_db` as `key=t` / `key=o` in order -/
+def mergeLine (rest : List String) : String :=
+  let parts := (" ".intercalate rest).splitOn "|"
+  match parts with
+  | [a, b] =>
+    let tk := words a
+    let ok := words b
+    let target : Dict String String := tk.map fun k => (k, "t")
+    let out : Dict String String := ok.map fun k => (k, "o")
+    " ".intercalate ((mergeOutput target out).map fun p => p.1 ++ "=" ++ p.2)
+  | _ => "bad-op"
+
 def step (line : String) : String :=
+  match words line with
+  | "merge" :: rest => mergeLine rest
+  | _ =>
   match line.splitOn ";" with
   | head :: sections =>
     match words head with
